@@ -42,8 +42,19 @@ EXPLANATION = (
     "the packer stores in clear - is made from the cap given in the write slot only on paths that found the 'ro.' or "
     "'imm.' prefix on that cap (on every other path the node stays opaque, so a recorded refusal that execution falls "
     "through, or that is overwritten later, cannot turn into an accepted child), and from any given cap only on paths "
-    "that passed it through uri.from_string and found no refusal. "
-    "Undecided: that the salt keeps its 16-byte width (a truncated salt makes key streams collide),  AES/SHA-256 strength, that uri.from_string(readcap) yields a read-only cap object and that <cap>.get_readonly() drops the writekey (C16.1), that an UnknownNode with a recorded error is refused by every consumer (raise_error() callers: C19/C16), what wrappers answer for is_readonly() (ProhibitedNode delegates; a wrong answer misreports but does not add authority), get_readcap() / MutableFileNode.get_readonly() where nothing but (9) uses them, "
+    "that passed it through uri.from_string and found no refusal; "
+    "(11, value provenance through all reaching definitions, container stores and - by descent - package-local helpers and "
+    "own methods) every node in what DirectoryNode._unpack_contents returns comes out of the node factory call made on "
+    "that invocation (whose rw slot (1) gates on 'not self.is_readonly()'): module-level state, attributes of the node "
+    "and whatever is reached through them (a memo of unpacked directories or of unpacked entries, in the function, in a "
+    "helper, on the shared nodemaker) may reach the result only through a lookup whose key depends on the writeability "
+    "of the unpacking node (is_readonly() / get_writekey() / get_write_uri() of self or self._node), so that a read-only "
+    "view is never served children unpacked under the write cap; likewise _create_and_validate_node answers with the "
+    "node create_from_cap made on that call or with one remembered under a key that includes the write cap given, and "
+    "_create_readonly_node with its argument ((5) gates that) or a node made on that call. "
+    "Undecided: who else fills a memo that is read under a context-dependent key (noted in the evidence); a memo private "
+    "to one DirectoryNode object would be safe but is reported all the same unless its key names the writeability; a "
+    "memo in front of _unpack_contents (DirectoryNode._read and its callers); that the salt keeps its 16-byte width (a truncated salt makes key streams collide),  AES/SHA-256 strength, that uri.from_string(readcap) yields a read-only cap object and that <cap>.get_readonly() drops the writekey (C16.1), that an UnknownNode with a recorded error is refused by every consumer (raise_error() callers: C19/C16), what wrappers answer for is_readonly() (ProhibitedNode delegates; a wrong answer misreports but does not add authority), get_readcap() / MutableFileNode.get_readonly() where nothing but (9) uses them, "
     "CTR-mode length leak of the rw slot (ticket #925); what the HMAC trailer is computed over and in which "
     "argument order (any hash of key/cap material is treated as one-way); that writer and reader derive the same "
     "key (argument order of mutable_rwcap_key_hash, slice widths: C19.3 / C17.6); the ro./imm. prefix "
@@ -52,7 +63,7 @@ EXPLANATION = (
     "mutable children in immutable directories (C19).")
 TECHNIQUE = ("static analysis: CFG gate rules, def-use closures with sanitiser cuts, sibling agreement over node classes, "
              "interprocedural parameter->return dependency summaries, path-sensitive abstract interpretation of "
-             "UnknownNode.__init__ (shared with C16)")
+             "UnknownNode.__init__ (shared with C16), interprocedural value provenance of returned children")
 
 DN = "dirnode:DirectoryNode"
 READONLY_CALL = re.compile(r"^(self|filecap)(\.\w+)?\.is_readonly\(\)$")
@@ -245,6 +256,401 @@ class ParamFlow:
         for r in roots:
             scan(r)
         return seen, fresh[0]
+
+
+_WRITEABILITY = ("is_readonly", "get_writekey", "get_write_uri")     # what tells a writeable node from a read-only one
+
+
+class Provenance:
+    """Where the node objects in a returned value can come from (C18.11).
+
+    Walks every value a function may return backwards: through all reaching definitions of a local, through what is
+    stored into a local container (X[k] = v, X.method(.., v, ..)), through the arguments and - by descent, at most
+    three levels - the returned values of package-local helpers and of methods called on self.  A walk ends at
+
+      * the *factory* call (is_factory): the one place that may make a child node here; its arguments are decided
+        by other rules (C18.1 / C18.5),
+      * parameters, constants, code objects, results of library calls on walked values (data),
+      * state that outlives the call - a module-level object, an attribute of self, anything reached through them.
+
+    State is refused (`lost`) unless it is read through a lookup whose key depends on the *context*: for the
+    unpacker the writeability of the unpacking node (<root>.is_readonly() / get_writekey() / get_write_uri(), also
+    through a local such as `writeable`), for the node factory the write cap it was given.  Whatever was remembered
+    under a key without the context was made for some other caller - possibly one holding the write cap."""
+
+    MUTATORS = {"append", "add", "update", "extend", "insert", "setdefault", "__setitem__", "set_with_aux", "pop",
+                "clear", "remove", "__delitem__", "popitem", "appendleft", "move_to_end"}
+
+    def __init__(self, idx, is_factory, what):
+        self.idx = idx
+        self.is_factory = is_factory
+        self.what = what                   # "this node's writeability" / "the write cap given"
+        self.lost = []                     # (fn, ast node, message)
+        self.leaves = []                   # (fn, ast node, kind)
+        self.states = 0
+        self._done = set()
+        self._envs = {}
+        self._active = []
+        self._keep = []
+
+    # -- environments
+    class Env:
+        """One activation: the function, which of its names carry the context (roots: node objects, flags: values that
+        depend on the context), and where its parameters come from (binding: parameter -> (caller env, node, expr))."""
+
+        def __init__(self, static, roots, flags, depth, binding):
+            self.__dict__.update(static)
+            self.roots, self.flags, self.depth, self.binding = frozenset(roots), frozenset(flags), depth, binding
+
+    def static(self, fn):
+        if fn.qual not in self._envs:
+            d = {"fn": fn, "cfg": fn.cfg(), "fnorm": FlowNorm(fn), "defs": def_exprs(fn), "locals": set(fn.params),
+                 "comp": set()}
+            for n in d["cfg"].nodes:
+                d["locals"] |= {x for x in node_stores(n) if "." not in x and not x.endswith("[]")}
+            for x in func_own_nodes(fn):
+                if isinstance(x, ast.Global):
+                    d["locals"] -= set(x.names)
+                if isinstance(x, ast.comprehension):
+                    d["comp"] |= {t.id for t in ast.walk(x.target) if isinstance(t, ast.Name)}
+                if isinstance(x, (ast.Yield, ast.YieldFrom, ast.Await)):
+                    raise AnalysisError("%s is a generator / coroutine: cannot follow what it returns" % fn.qual)
+            d["live"] = d["cfg"].reachable_nodes()
+            self._envs[fn.qual] = d
+        return self._envs[fn.qual]
+
+    def env(self, fn, roots=(), flags=(), depth=0, binding=None):
+        e = Provenance.Env(self.static(fn), roots, flags, depth, binding or {})
+        self._keep.append(e)                           # activations are identified by id()
+        return e
+
+    # -- bookkeeping
+    def lose(self, env, x, msg):
+        self.lost.append((env.fn, x, msg))
+
+    def leaf(self, env, x, kind):
+        self.leaves.append((env.fn, x, kind))
+
+    # -- does an expression depend on the context?
+    def ctxdep(self, env, e):
+        names, calls, _ = cut_closure(env.fn, [e], set())
+        if names & env.flags:
+            return True
+        for c in calls:
+            if call_tail(c) in _WRITEABILITY and isinstance(c.func, ast.Attribute):
+                p = attr_path(c.func.value)
+                if p is not None and any(p == r_ or p == r_ + "._node" for r_ in env.roots):
+                    return True
+        return False
+
+    # -- is this name / attribute chain something that outlives the call?
+    def state_of(self, env, e):
+        """None (not state), or a description of the state the expression denotes."""
+        p = attr_path(e)
+        if p is None:
+            return None
+        root = p.split(".", 1)[0]
+        if root in env.locals or root in env.comp:
+            if root == "self" and env.fn.cls is not None and p != "self":
+                return "%s (an attribute of the node, shared with whoever else holds the object behind it)" % p
+            return None
+        m = env.fn.module
+        tgt = self.idx.resolve_expr(m, e)
+        if tgt is not None:
+            return None                                # function, class, module
+        if root in m.imports or root in m.funcs or root in m.classes:
+            return None                                # something inside an imported module / a class: code or constant
+        if root in m.assigns:
+            try:
+                v = get_folder(self.idx).fold(ast.Name(id=root, ctx=ast.Load()), m, None)
+                if v is None or isinstance(v, (bool, int, float, str, bytes, tuple, frozenset)):
+                    return None                        # a module-level constant
+            except NotConstant:
+                pass
+            return "%s (module-level state, shared by every node of the process)" % p
+        import builtins
+        if hasattr(builtins, root):
+            return None
+        raise AnalysisError("%s: cannot tell what %s is" % (env.fn.qual, p))
+
+    # -- the walk
+    def returns(self, env):
+        rets = [n for n in env.cfg.find(is_return) if n.id in env.live]
+        for n in rets:
+            if n.ast.value is not None:
+                self.value(env, n, n.ast.value)
+        return rets
+
+    def def_values(self, env, dn, name):
+        v = env.fnorm._def_value(dn, name)
+        if v is not None:
+            return [v]
+        a = dn.ast
+        if dn.kind == "stmt":
+            if isinstance(a, (ast.Assign, ast.AnnAssign)):
+                return [a.value] if a.value is not None else []
+            if isinstance(a, ast.AugAssign):
+                return [aug_value(a)]
+            if isinstance(a, (ast.Import, ast.ImportFrom)):
+                return []
+            if isinstance(a, (ast.FunctionDef, ast.AsyncFunctionDef, ast.ClassDef)):
+                raise AnalysisError("%s: the local definition %s flows into a returned value" % (env.fn.qual, name))
+        if dn.kind == "iter":
+            return [a.iter]
+        if dn.kind == "with":
+            return [i.context_expr for i in a.items]
+        if dn.kind == "except":
+            return []
+        out = [x.value for x in (own_nodes(a) if a is not None else [])
+               if isinstance(x, ast.NamedExpr) and isinstance(x.target, ast.Name) and x.target.id == name]
+        if out:
+            return out
+        raise AnalysisError("%s: cannot follow the definition of %s at line %s" % (env.fn.qual, name, dn.lineno))
+
+    def contents(self, env, name):
+        """What is put into the local `name` anywhere in the function: X[k] = v, X.method(.., v, ..); a helper that
+        is handed X and stores into it cannot be followed."""
+        key = (id(env), "contents", name)
+        if key in self._done:
+            return
+        self._done.add(key)
+        for n in env.cfg.nodes:
+            if n.id not in env.live or n.ast is None:
+                continue
+            a = n.ast
+            if n.kind == "stmt" and isinstance(a, (ast.Assign, ast.AugAssign)):
+                ts = a.targets if isinstance(a, ast.Assign) else [a.target]
+                for t in ts:
+                    for x in ast.walk(t):
+                        if isinstance(x, ast.Subscript) and isinstance(x.ctx, ast.Store) and attr_path(x.value) == name:
+                            self.value(env, n, a.value)
+            for c in node_calls(n):
+                if isinstance(c.func, ast.Attribute) and attr_path(c.func.value) == name:
+                    keyed = c.func.attr in ("set_with_aux", "setdefault", "__setitem__", "get", "pop", "get_aux")
+                    for x in list(c.args)[1 if keyed else 0:] + [k.value for k in c.keywords]:
+                        self.value(env, n, x)
+                    continue
+                handed = [i for i, x in enumerate(c.args) if isinstance(x, ast.Name) and x.id == name] + \
+                    [k.arg for k in c.keywords if isinstance(k.value, ast.Name) and k.value.id == name]
+                if not handed or self.is_factory(env, c):
+                    continue
+                g = self.callee(env, c)
+                if g is None:
+                    continue                           # library call (len, isinstance, log.msg ..): reads only
+                b = self.bind(g, c, method=isinstance(c.func, ast.Attribute) and attr_path(c.func.value) == "self")
+                if b is None:
+                    raise AnalysisError("%s hands %s to %s with */** arguments" % (env.fn.qual, name, g.name))
+                for (q, x) in b.items():
+                    if isinstance(x, ast.Name) and x.id == name:
+                        for y in func_own_nodes(g):
+                            st = isinstance(y, ast.Subscript) and isinstance(y.ctx, (ast.Store, ast.Del)) and attr_path(y.value) == q
+                            mu = isinstance(y, ast.Call) and isinstance(y.func, ast.Attribute) and attr_path(y.func.value) == q \
+                                and y.func.attr in self.MUTATORS
+                            if st or mu:
+                                raise AnalysisError("%s hands %s to %s, which stores into it: cannot follow" % (
+                                    env.fn.qual, name, g.qual))
+
+    def callee(self, env, c):
+        """The package function a call runs, when that can be told: a module-level function, or a method of the own
+        class called on self."""
+        f = c.func
+        if isinstance(f, ast.Attribute) and attr_path(f.value) == "self" and env.fn.cls is not None and "self" in env.fn.params:
+            return env.fn.cls.lookup(f.attr)
+        tgt = self.idx.resolve_expr(env.fn.module, f) if isinstance(f, (ast.Name, ast.Attribute)) else None
+        if isinstance(f, ast.Name) and f.id in env.locals:
+            return None
+        if isinstance(tgt, FuncInfo) and tgt.cls is None and not isinstance(tgt.node, ast.Lambda):
+            return tgt
+        return None
+
+    @staticmethod
+    def bind(g, call, method=False):
+        a = g.node.args
+        if a.vararg or a.kwarg or any(isinstance(x, ast.Starred) for x in call.args) \
+                or any(k.arg is None for k in call.keywords):
+            return None
+        pos = [x.arg for x in list(a.posonlyargs) + list(a.args)]
+        if method:
+            pos = pos[1:]
+        if len(call.args) > len(pos):
+            return None
+        out = dict(zip(pos, call.args))
+        known = set(pos) | {x.arg for x in a.kwonlyargs}
+        for k in call.keywords:
+            if k.arg not in known or k.arg in out:
+                return None
+            out[k.arg] = k.value
+        return out
+
+    def descend(self, env, n, c, g, method):
+        """Walk what the callee returns; its parameters lead back to the arguments of this call (walked here, in the
+        caller, only when a returned value of the callee can be one)."""
+        if env.depth >= 8:
+            raise AnalysisError("%s: helper calls nested deeper than 8 levels below the analysed function (%s)" % (
+                env.fn.qual, g.qual))
+        if isinstance(g.node, ast.Lambda):
+            raise AnalysisError("%s calls a lambda: cannot follow" % env.fn.qual)
+        b = self.bind(g, c, method)
+        if b is None:
+            raise AnalysisError("%s calls %s with */** arguments: cannot follow the context" % (env.fn.qual, g.name))
+        roots, flags = set(), set()
+        if method:
+            roots |= {"self"} & set(env.roots)
+        for (q, x) in b.items():
+            if isinstance(x, ast.Name) and x.id in env.roots:
+                roots.add(q)
+            elif self.ctxdep(env, x):
+                flags.add(q)
+        k = (g.qual, id(c), id(env))
+        if k in self._active or sum(1 for a in self._active if a[0] == g.qual) >= 2:
+            return                                     # recursion: the outer walk covers it
+        self._active.append(k)
+        try:
+            binding = {q: (env, n, x) for (q, x) in b.items()}
+            if method:
+                binding["self"] = None                 # the same object
+            self.returns(self.env(g, roots, flags, env.depth + 1, binding))
+        finally:
+            self._active.pop()
+
+    def container(self, env, n, path, what, keys, e):
+        """A value read out of state that outlives the call."""
+        if not any(self.ctxdep(env, k) for k in keys):
+            shown = ", ".join(src(env.fn, k) for k in keys)
+            return self.lose(env, e, "%s returns (or lists as a child) %s: a value remembered from an earlier call in %s "
+                             "and looked up %s that does not include %s" % (
+                                 short(env.fn), src(env.fn, e), what,
+                                 ("by a key (%s)" % shown) if keys else "without a key", self.what))
+        # keyed by the context: what this function itself stores there must be keyed the same way
+        for sn in env.cfg.nodes:
+            a = sn.ast
+            if sn.id not in env.live or a is None:
+                continue
+            ks = []
+            if sn.kind == "stmt" and isinstance(a, ast.Assign):
+                ks += [t.slice for t in a.targets if isinstance(t, ast.Subscript) and attr_path(t.value) == path]
+            for c in node_calls(sn):
+                if isinstance(c.func, ast.Attribute) and attr_path(c.func.value) == path and c.args \
+                        and c.func.attr in ("setdefault", "__setitem__", "set_with_aux"):
+                    ks.append(c.args[0])
+            for k in ks:
+                if not self.ctxdep(env, k):
+                    self.lose(env, k, "%s remembers a result in %s under a key (%s) that does not include %s, and reads "
+                              "it back at line %s" % (short(env.fn), path, src(env.fn, k), self.what, getattr(e, "lineno", "?")))
+        self.leaf(env, e, "memo keyed by the context")
+
+    def value(self, env, n, e):
+        key = (id(env), n.id, id(e))
+        if key in self._done:
+            return
+        self._done.add(key)
+        self.states += 1
+        if e is None or isinstance(e, ast.Constant):
+            return
+        if isinstance(e, ast.Name):
+            if e.id in env.comp and e.id not in env.fnorm.rd.get(n.id, {}):
+                return                                 # bound by a comprehension whose iterable is walked
+            if e.id not in env.locals:
+                st = self.state_of(env, e)
+                if st is not None:
+                    self.lose(env, e, "%s returns (or lists as a child) a value made from %s, which does not depend on %s"
+                              % (short(env.fn), st, self.what))
+                return
+            ds = env.fnorm.rd.get(n.id, {}).get(e.id, frozenset())
+            if not ds:
+                raise AnalysisError("%s: no definition of %s reaches line %s" % (env.fn.qual, e.id, n.lineno))
+            for d in sorted(ds):
+                if d == C.PARAM_DEF:
+                    src_ = env.binding.get(e.id)
+                    if src_ is not None:
+                        self.value(src_[0], src_[1], src_[2])     # the argument, where the call was made
+                    else:
+                        self.leaf(env, e, "parameter")
+                    continue
+                dn = env.cfg.nodes[d]
+                for dv in self.def_values(env, dn, e.id):
+                    self.value(env, dn, dv)
+            self.contents(env, e.id)
+            return
+        if isinstance(e, ast.Attribute):
+            st = self.state_of(env, e) if attr_path(e) is not None else None
+            if st is not None:
+                self.lose(env, e, "%s returns (or lists as a child) a value made from %s, read without a key that "
+                          "includes %s" % (short(env.fn), st, self.what))
+                return
+            if attr_path(e) is None or attr_path(e).split(".", 1)[0] in env.locals:
+                return self.value(env, n, e.value)
+            return                                     # code / constant of a module
+        if isinstance(e, ast.Subscript):
+            st = self.state_of(env, e.value) if attr_path(e.value) is not None else None
+            if st is not None:
+                return self.container(env, n, attr_path(e.value), st, [e.slice], e)
+            return self.value(env, n, e.value)
+        if isinstance(e, ast.Call):
+            return self.call(env, n, e)
+        if isinstance(e, ast.Lambda):
+            raise AnalysisError("%s: a lambda flows into a returned value" % env.fn.qual)
+        if isinstance(e, (ast.ListComp, ast.SetComp, ast.GeneratorExp, ast.DictComp)):
+            for g in e.generators:
+                self.value(env, n, g.iter)
+            for x in ([e.value] if isinstance(e, ast.DictComp) else [e.elt]):
+                self.value(env, n, x)
+            return
+        if isinstance(e, ast.Dict):
+            for x in e.values:
+                self.value(env, n, x)
+            return
+        if isinstance(e, ast.NamedExpr):
+            return self.value(env, n, e.value)
+        if isinstance(e, ast.IfExp):
+            self.value(env, n, e.body)
+            return self.value(env, n, e.orelse)
+        for x in ast.iter_child_nodes(e):              # tuples, lists, a or b, arithmetic, f-strings ...
+            if isinstance(x, ast.expr):
+                self.value(env, n, x)
+
+    def call(self, env, n, c):
+        f = c.func
+        args = list(c.args) + [k.value for k in c.keywords]
+        if self.is_factory(env, c):
+            return self.leaf(env, c, "factory")
+        if isinstance(f, ast.Attribute):
+            recv = f.value
+            p = attr_path(recv)
+            if p == "self" and "self" in env.fn.params and env.fn.cls is not None:
+                g = env.fn.cls.lookup(f.attr)
+                if g is None:
+                    raise AnalysisError("%s calls self.%s(), which is not a method of %s" % (env.fn.qual, f.attr, env.fn.cls.name))
+                return self.descend(env, n, c, g, True)
+            st = self.state_of(env, recv) if p is not None else None
+            if st is not None:
+                return self.container(env, n, p, st, args, c)
+            if p is not None and p.split(".", 1)[0] not in env.locals:
+                g = self.callee(env, c)                # a function of a module
+                if g is not None:
+                    return self.descend(env, n, c, g, False)
+                for x in args:                         # library code: data derived from the arguments
+                    self.value(env, n, x)
+                return
+            self.value(env, n, recv)                   # a method of a value: data derived from it and the arguments
+            for x in args:
+                self.value(env, n, x)
+            return
+        if isinstance(f, ast.Name):
+            if f.id in env.locals:
+                raise AnalysisError("%s calls the local callable %s on the way to a returned value" % (env.fn.qual, f.id))
+            st = self.state_of(env, f)
+            if st is not None:
+                return self.container(env, n, f.id, st, args, c)
+            g = self.callee(env, c)
+            if g is not None:
+                return self.descend(env, n, c, g, False)
+            for x in args:                             # a class / library function: data made from the arguments
+                self.value(env, n, x)
+            return
+        self.value(env, n, f)
+        for x in args:
+            self.value(env, n, x)
 
 
 def run(ctx: Context):
@@ -1000,6 +1406,60 @@ def run(ctx: Context):
                     judge([ci] + idx.subclasses(ci), tgt, "%s.get_readonly_uri, bound to %s," % (ci.name, short(tgt)))
         for (f2, nd) in get_callgraph(idx).attr_stores("get_readonly_uri"):
             r.violation(f2, f2.loc(nd), "%s re-binds get_readonly_uri on an object" % short(f2))
+
+    # -- 11. every child a directory hands out was made for this node ---------------
+    # C18.1 decides what the node factory is given inside _unpack_contents; that is worth nothing when the function
+    # can answer with children that did not come out of that factory call on this invocation - a remembered result
+    # was unpacked by whoever filled the memo, and a read-only node must not be served what a writeable node of the
+    # same directory unpacked (same storage index, same packed bytes, decrypted write caps inside).
+    with ctx.rule("C18.11", "R3/R7", "_unpack_contents (and the factories _create_and_validate_node / "
+                  "_create_readonly_node): every node in a returned value comes out of the node factory called on this "
+                  "invocation, or out of a lookup keyed by this node's writeability (the given write cap); nothing "
+                  "remembered in module / shared object state under another key reaches the result", expected=5) as r:
+        un = idx.func(DN + "._unpack_contents")
+        cv = idx.func(DN + "._create_and_validate_node")
+        cr = idx.func(DN + "._create_readonly_node")
+
+        def self_call(tail):
+            def p(env, c):
+                return call_tail(c) == tail and isinstance(c.func, ast.Attribute) and attr_path(c.func.value) == "self" \
+                    and "self" in env.fn.params and env.fn.cls is not None and env.fn.cls.lookup(tail) is cv
+            return p
+
+        def nodemaker_call(env, c):
+            return call_tail(c) == "create_from_cap" and isinstance(c.func, ast.Attribute) and env.fn is cv \
+                and (attr_path(c.func.value) or "").startswith("self.")
+        p2 = first_positional_params(cv)
+        if len(p2) < 2:
+            raise AnchorVanished("_create_and_validate_node(rw_uri, ro_uri, ..) signature changed")
+        jobs = [(un, self_call("_create_and_validate_node"), ["self"], [], "this node's writeability (is_readonly())"),
+                (cv, nodemaker_call, [], [p2[0]], "the write cap it was given (%s)" % p2[0]),
+                (cr, self_call("_create_and_validate_node"), [], [], "anything that tells a read-only child from a writeable one")]
+        for (f, fac, roots, flags, what) in jobs:
+            pv = Provenance(idx, fac, what)
+            rets = pv.returns(pv.env(f, roots, flags))
+            if not rets:
+                raise AnchorVanished("%s returns nothing" % short(f))
+            made = [x for x in pv.leaves if x[2] == "factory"]
+            if not made and not pv.lost:
+                raise AnchorVanished("no value returned by %s comes out of the node factory" % short(f))
+            for n in rets:
+                r.site(f, n.ast, "return")
+            for (g, x, _k) in made:
+                r.site(g, x, "made here")
+            for (g, x, k) in pv.leaves:
+                if k == "memo keyed by the context":
+                    r.site(g, x, k)
+                    ctx.note("C18.11: %s reads a memo keyed by %s; who else fills it is not decided" % (short(g), what))
+            r.count(pv.states)
+            seen = set()
+            for (g, x, msg) in pv.lost:
+                k = (g.qual, getattr(x, "lineno", 0), msg)
+                if k in seen:
+                    continue
+                seen.add(k)
+                r.violation(g, g.loc(x), msg + ": a read-only view of a directory can be served the children (with "
+                            "decrypted write caps) that a write-cap view of the same directory produced")
 
     # -- 10. what an UnknownNode lets into its ro slot ------------------------------
     # C18.9 accepts UnknownNode.get_readonly_uri() == self.ro_uri because the slot is not the write slot; the string in
